@@ -44,10 +44,10 @@ def place_path(proj):
 
 
 class BodyEval:
-    def __init__(self, world, body):
+    def __init__(self, world, body, removed=frozenset()):
         self.world = world
         self.body = body
-        self.cfg = CFG(body)
+        self.cfg = CFG(body, removed)
         self.defs = []
         self.defs_by_local = {}
         self.block_defs = {}  # bb -> list of defs in order
@@ -225,7 +225,8 @@ class BodyEval:
                 if b != 0:
                     s = set()
                     for p in cfg.pred[b]:
-                        s |= OUT[p]
+                        if p in OUT:
+                            s |= OUT[p]
                     IN[b] = frozenset(s)
                 o = transfer(b, IN[b])
                 if o != OUT[b]:
@@ -461,6 +462,16 @@ class World:
             self._be[k] = BodyEval(self, body)
         return self._be[k]
 
+    def be_spec(self, body, removed):
+        """BodyEval on the CFG with the given (infeasible) edges removed"""
+        if not removed:
+            return self.be(body)
+        k = (id(body), frozenset(removed))
+        d = self.__dict__.setdefault("_be_spec", {})
+        if k not in d:
+            d[k] = BodyEval(self, body, frozenset(removed))
+        return d[k]
+
     def ret_expr(self, body):
         """value of _0 at the return points (phi)"""
         k = id(body)
@@ -608,6 +619,13 @@ class World:
                     x = self.expand(e)
                     if x is not e:
                         return self.ident(x, depth + 1, expand_ws)
+            return e
+        if op == "out" and expand_ws and depth < 8:
+            b = self.callee_body(e)
+            if b is not None and b.is_fn():
+                x = self.expand(e)
+                if x is not e:
+                    return self.ident(x, depth + 1, expand_ws)
             return e
         if op == "phi":
             ids = []
